@@ -69,6 +69,14 @@ fn run_history(i: &Init, acts: &[Act], check_from: usize) -> Result<(usize, usiz
 
 /// as run_history, with an explicit source length (the soak probes need more than 255 frames)
 fn run_history_src(i: &Init, acts: &[Act], check_from: usize, src_len: usize) -> Result<(usize, usize, usize, usize), Bad> {
+    // a panic anywhere in the adaptor under test (an overflow check, a debug assertion) is a violation
+    match common::catch(|| run_history_src_inner(i, acts, check_from, src_len)) {
+        Ok(r) => r,
+        Err(p) => Err(("buffered.panic".into(), format!("{i:?}, history of {} actions: panicked: {p}", acts.len()))),
+    }
+}
+
+fn run_history_src_inner(i: &Init, acts: &[Act], check_from: usize, src_len: usize) -> Result<(usize, usize, usize, usize), Bad> {
     let cap = i.cap as usize;
     let mut data = vec![-7.0f64; cap];
     for k in 0..i.len as usize {
@@ -137,6 +145,13 @@ fn run_history_src(i: &Init, acts: &[Act], check_from: usize, src_len: usize) ->
 }
 
 fn drain_case(i: &Init) -> Option<Bad> {
+    match catch(|| drain_case_inner(i)) {
+        Ok(r) => r,
+        Err(p) => Some(("buffered.panic".into(), format!("{i:?} drained through until_exhausted(): panicked: {p}"))),
+    }
+}
+
+fn drain_case_inner(i: &Init) -> Option<Bad> {
     let cap = i.cap as usize;
     let mut data = vec![-7.0f64; cap];
     for k in 0..i.len as usize {
@@ -248,6 +263,7 @@ impl Model for BufModel {
 }
 
 fn main() {
+    let _final_guard = common::FinalGuard::new();
     let ctx: &'static Ctx = Ctx::leak("C14", "release");
     if let Some(v) = ctx.replay_case() {
         let _guard_scope = guard::scoped(&v.to_string());
